@@ -158,7 +158,7 @@ func (NetH) Gen(prop string, seed uint64, tier string) *hx.Case {
 			if i == 0 && withVersion {
 				m.Cmd, m.Kind = "version", "valid"
 				if r.Chance(0.15) {
-					m.Kind = []string{"short82", "trunc", "random", "badagentlen", "mutate"}[r.Intn(5)]
+					m.Kind = []string{"short82", "trunc", "random", "badagentlen", "mutate", "agentlen-huge"}[r.Intn(6)]
 				} else if p > 0 && r.Chance(0.3) {
 					m.Kind = "samenonce" // the nonce another connection has used (looks like a connection to ourselves)
 				}
@@ -166,7 +166,7 @@ func (NetH) Gen(prop string, seed uint64, tier string) *hx.Case {
 				m.Cmd, m.Kind = "verack", "valid"
 			} else {
 				m.Cmd = netCmds[r.Intn(len(netCmds))]
-				m.Kind = []string{"valid", "valid", "mutate", "mutate", "trunc", "extend", "random", "empty", "count", "max"}[r.Intn(10)]
+				m.Kind = []string{"valid", "valid", "mutate", "mutate", "trunc", "extend", "random", "empty", "count", "max", "count-wrap", "lencut", "count-huge"}[r.Intn(13)]
 			}
 			if r.Chance(0.03) {
 				m.HdrMut = []string{"magic", "checksum", "length-short", "length-long", "length-huge", "length-enc-zero"}[r.Intn(6)]
@@ -942,6 +942,47 @@ func (n *netRun) payload(m *NetMsg, r *hx.Rng) []byte {
 			}
 			pl = append(append(append([]byte{}, pl[:off]...), c...), pl[off+1:]...)
 		}
+	case "count-wrap":
+		// ONE entry, announced by a count whose product with the entry size wraps around 2^64 back to one entry's
+		// size (2^k+1 entries of 36, 30, 32 ... bytes): a length check done in 64-bit arithmetic passes
+		off := map[string]int{"getblocks": 4, "getheaders": 4, "getblocktxn": 32, "blocktxn": 32, "cmpctblock": 88}[m.Cmd]
+		one := map[string]func() []byte{
+			"inv": func() []byte { return n.invPayload(r, 1)[1:] }, "getdata": func() []byte { return n.invPayload(r, 1)[1:] },
+			"notfound": func() []byte { return n.invPayload(r, 1)[1:] }, "addr": func() []byte { return netAddr(r, true) },
+			"getmp": func() []byte { return r.Bytes(8) }, "headers": func() []byte { return append(r.Bytes(80), 0) },
+		}[m.Cmd]
+		cnt := make([]byte, 9)
+		cnt[0] = 0xff
+		binary.LittleEndian.PutUint64(cnt[1:], uint64(1)<<uint(58+r.Intn(6))+1)
+		if one != nil {
+			pl = append(cnt, one()...)
+		} else if len(pl) > off {
+			pl = append(append(append([]byte{}, pl[:off]...), cnt...), pl[off+1:]...)
+		}
+	case "count-huge":
+		// a count of 2^40 (or 2^32-1) where the parser allocates before it looks at the bytes that follow
+		off := map[string]int{"getblocks": 4, "getheaders": 4, "getblocktxn": 32, "blocktxn": 32, "cmpctblock": 88, "tx": 4, "block": 80}[m.Cmd]
+		if len(pl) > off {
+			c := [][]byte{{0xff, 0, 0, 0, 0, 0, 1, 0, 0}, {0xfe, 0xff, 0xff, 0xff, 0xff}, {0xff, 0, 0, 0, 0, 0, 0, 0, 0x40}}[r.Intn(3)]
+			cut := off + 1 + r.Intn(len(pl)-off)
+			pl = append(append(append([]byte{}, pl[:off]...), c...), pl[off+1:cut]...)
+		}
+	case "lencut":
+		// the payload ends right inside (or right after the first byte of) a multi-byte length field
+		if len(pl) > 8 {
+			cut := 4 + r.Intn(len(pl)-4)
+			pl = append(append([]byte{}, pl[:cut]...), []byte{0xfd, 0xfe, 0xff}[r.Intn(3)])
+			if r.Chance(0.3) {
+				pl = append(pl, 0x01)
+			}
+		}
+	case "agentlen-huge":
+		// version: the user-agent length is a CompactSize of 2^63 and more (negative once converted to int)
+		pl = n.versionPayload(r, n.model.Height)
+		if len(pl) > 81 {
+			tail := append([]byte{}, pl[81:]...)
+			pl = append(append(pl[:80:80], [][]byte{{0xff, 0xff, 0xff, 0xff, 0xff, 0xff, 0xff, 0xff, 0xff}, {0xff, 0xff, 0xff, 0xff, 0xff, 0xff, 0xff, 0xff, 0x7f}, {0xff, 0, 0, 0, 0, 0, 0, 0, 0x80}}[r.Intn(3)]...), tail...)
+		}
 	case "max":
 		// the per-command maximum, filled with a claimed count and zeros / noise
 		sz := map[string]int{"inv": 9 + 50000*36, "getdata": 9 + 50000*36, "notfound": 9 + 50000*36, "addr": 9 + 1000*30, "headers": 9 + 2000*89, "getblocks": 4 + 9 + 101*32 + 32, "getheaders": 4 + 9 + 101*32 + 32}[m.Cmd]
@@ -1052,8 +1093,8 @@ func (NetH) Run(t *testing.T, c *hx.Case) *hx.Outcome {
 		common.GocoinHomeDir = dir + "/"
 		common.Reset()
 		n.boot()
-		n.n.Ch.CB.BlockMinedCB = txpool.BlockMined
-		n.n.Ch.CB.BlockUndoneCB = txpool.BlockUndone
+		n.n.Ch.CB.BlockMinedCB = mainlib.BlockMinedCB // client/main.go: blockMined (txpool.BlockMined + fee statistics)
+		n.n.Ch.CB.BlockUndoneCB = mainlib.BlockUndoneCB
 		common.BlockChain = n.n.Ch
 		common.Last.Mutex.Lock()
 		common.Last.Block = n.n.Ch.LastBlock()
